@@ -107,6 +107,10 @@ def sweep_streams(tier):
             if typ == 1 and L - 19 > len(full):
                 continue
             out.append((('MINLEN', 'T%d' % typ, 'L%d' % L, 'KA'), MARK + bytes([L >> 8, L & 255, typ]) + body + MARK + b'\x00\x13\x04'))
+    # very many complete messages delivered at once (a peer that catches up after a pause: a 22 KB socket read)
+    upd0 = MARK + b'\x00\x17\x02\x00\x00\x00\x00'
+    for name, unit, cnt in [('KA', MARK + b'\x00\x13\x04', 1200), ('UPD0', upd0, 1100)] + ([('KA', MARK + b'\x00\x13\x04', 3000)] if tier == 'thorough' else []):
+        out.append((('MANY=%d' % cnt, name), unit * cnt))
     for t in range(256):
         out.append((('TYPE=%d' % t,), MARK + b'\x00\x13' + bytes([t])))
         out.append((('TYPE=%d+KA' % t,), MARK + b'\x00\x13' + bytes([t]) + MARK + b'\x00\x13\x04'))
@@ -128,7 +132,9 @@ def _work(args):
                 plans = [('whole', [])] + ([('1cut', [17]), ('1cut', [18])] if len(data) >= 19 else [])
                 if names[0] == 'MINLEN':
                     plans += [('1cut', [19]), ('1cut', [len(data) - 19]), ('bytewise', list(range(1, len(data))))]
-                if len(data) > 4096:
+                if names[0].startswith('MANY'):
+                    plans = [('whole', []), ('chunks1000', list(range(1000, len(data), 1000))), ('1cut', [len(data) // 2 + 7])]
+                elif len(data) > 4096:
                     plans += [('1cut', [19]), ('1cut', [20]), ('1cut', [len(data) - 19]), ('1cut', [len(data) - 20]), ('2cut', [10, len(data) - 19])]
             else:
                 plans = plans_for(data, tier, rnd, len(names) - 1)
